@@ -32,6 +32,7 @@ type Thread struct {
 	started   bool
 	gid       int64
 	Panic     string
+	waitOn    interface{} // shimmed lock this thread waits for (deterministically disabled)
 	Points    int
 	lastPoint int
 }
@@ -55,6 +56,7 @@ type Run struct {
 	Deadlock     bool
 	NativeBlocks []string // "thread 1 blocked in [chan send] after point 854"
 	Switches     int
+	LockWaits    int     // times a thread had to wait for a shimmed lock
 	Trace        []Event // thread switches only (thread, point where it resumed)
 	TotalPoints  int
 	KeepTrace    bool
@@ -137,7 +139,7 @@ func goroutineState(gid int64) (state string, inPark bool) {
 
 func isNativeWait(state string) bool {
 	switch state {
-	case "chan receive", "chan send", "select", "select (no cases)", "sync.Mutex.Lock", "sync.RWMutex.Lock", "sync.RWMutex.RLock", "sync.Cond.Wait", "semacquire", "sync.WaitGroup.Wait",
+	case "chan receive", "chan send", "select", "select (no cases)", "sync.Mutex.Lock", "sync.RWMutex.Lock", "sync.RWMutex.RLock", "sync.Cond.Wait", "sync.WaitGroup.Wait",
 		"chan receive (nil chan)", "chan send (nil chan)":
 		return true
 	}
@@ -154,7 +156,7 @@ func (r *Run) others(t *Thread) []*Thread {
 	}
 	for k := 0; k < n; k++ {
 		u := r.Threads[(start+k)%n]
-		if u != t && !u.done && !u.blocked {
+		if u != t && !u.done && !u.blocked && u.waitOn == nil {
 			l = append(l, u)
 		}
 	}
@@ -214,9 +216,25 @@ func (r *Run) finish(t *Thread) {
 			}
 		}
 		r.cur = nil
+		native := false
+		for _, u := range r.Threads {
+			if !u.done && u.blocked {
+				native = true
+			}
+		}
+		if !all && !native {
+			// every unfinished thread waits for a shimmed lock that nobody will release
+			r.Deadlock = true
+			r.NativeBlocks = append(r.NativeBlocks, "every unfinished thread waits for a lock whose holder has finished")
+			all = true
+		}
 		r.mu.Unlock()
 		if all {
-			close(r.finished)
+			select {
+			case <-r.finished:
+			default:
+				close(r.finished)
+			}
 		}
 		// otherwise some thread is natively blocked: the monitor loop decides whether it is
 		// released (it then takes over as the runner) or stuck for good (deadlock)
@@ -228,6 +246,53 @@ func (r *Run) finish(t *Thread) {
 	}
 	r.wake(en[c], -1)
 	r.mu.Unlock()
+}
+
+// installSyncHooks is set by the vsched build (sync stand-in present in the instrumented package).
+var installSyncHooks func(r *Run) func()
+
+// lockWait makes the running thread wait, as a deterministic scheduling operation, until free() holds.
+func (r *Run) lockWait(lock interface{}, free func() bool) {
+	for !free() {
+		r.mu.Lock()
+		t := r.cur
+		if t == nil {
+			r.mu.Unlock()
+			return
+		}
+		t.waitOn = lock
+		r.LockWaits++
+		en := r.others(t)
+		if len(en) == 0 {
+			// everybody waits for a lock or is finished: deadlock
+			r.Deadlock = true
+			r.NativeBlocks = append(r.NativeBlocks, fmt.Sprintf("thread %d waits for a lock nobody can release (after point %d)", t.ID, t.lastPoint))
+			r.cur = nil
+			r.mu.Unlock()
+			select {
+			case <-r.finished:
+			default:
+				close(r.finished)
+			}
+			select {} // abandoned
+		}
+		c := 0
+		if len(en) > 1 {
+			c = r.ch.All(len(en), "next-after-lock-wait")
+		}
+		r.wake(en[c], -2)
+		r.mu.Unlock()
+		r.park(t)
+	}
+}
+
+// release re-enables the threads waiting for a lock.
+func (r *Run) release(lock interface{}) {
+	for _, u := range r.Threads {
+		if u.waitOn == lock {
+			u.waitOn = nil
+		}
+	}
 }
 
 // Point is the hook body: called by instrumented code at every statement.
@@ -289,6 +354,9 @@ func (r *Run) Point(id int) {
 func (r *Run) Execute(hook *func(int)) {
 	*hook = r.Point
 	defer func() { *hook = nil }()
+	if installSyncHooks != nil {
+		defer installSyncHooks(r)()
+	}
 	r.mu.Lock()
 	first := 0
 	if len(r.Threads) > 1 {
